@@ -206,7 +206,8 @@ def stub_approx_derivative(fun, x0, method="3-point", rel_step=None, abs_step=No
     per = 2 if method == "3-point" else 1
     for i in range(n):
         for s in range(per):
-            h = SReal(CTX.fresh("fdh"))
+            # the step is a function of x0 (and of the fixed options/bounds): functional, so that two runs agree
+            h = ST.run.prob.fd_h(list(x0.data) + [SReal.of(i), SReal.of(s)])[0]
             p = list(x0.data)
             p[i] = p[i] + h
             c = []
@@ -224,7 +225,17 @@ def stub_approx_derivative(fun, x0, method="3-point", rel_step=None, abs_step=No
     run = ST.run
     uf = run.prob.fd_grad
     vals = uf(list(x0.data))
-    return np.array(list(vals))
+    # a one-sided difference quotient depends on the base value it is given: g = FD(x0) + (f(x0) - f0) * w(x0)
+    # (w > 0 functional); with the right f0 the correction vanishes
+    us = run.user_scale()
+    out = [v * us for v in vals]
+    if f0 is not None and method != "cs":
+        true = run.user_f(list(x0.data))
+        w = run.prob.fd_w(list(x0.data))[0]
+        CTX.assume(w.z() > 0, check=False)
+        corr = (true - SReal.of(f0)) * w
+        out = [v + corr for v in out]
+    return np.array(out)
 
 
 def install(W):
@@ -312,6 +323,8 @@ class Problem:
         self.f = UF(name + "f", 1)
         self.g = UF(name + "g", n)
         self.fd_grad = UF(name + "fdg", n)
+        self.fd_w = UF(name + "fdw", 1)
+        self.fd_h = UF(name + "fdh", 1)
 
     def x0_array(self):
         return self.W.np.array(list(self.x0))
@@ -351,6 +364,13 @@ class Run:
         self.updates = []         # per update_lbfgs_matrices call: was the new pair stored?
         self.fu = prob.f          # the objective / gradient oracles currently in force (C13 switches them)
         self.gu = prob.g
+
+    def user_f(self, pt):
+        """value of THIS run's user objective at pt (no evaluation is counted)"""
+        return self.fu(pt)[0]
+
+    def user_scale(self):
+        return SReal.of(1)
 
     def _fault(self, kind, idx):
         e = self.faults.get((kind, idx))
